@@ -13,7 +13,7 @@ LEVEL = "fault_enumeration"
 RULE = ("one run = one data width k, a list of data words and a slice [a,b) of first flip positions: the zero-flip word, "
         "every single flip at i in [a,b) and every pair (i,j), i in [a,b), j>i, are injected into the stored code word "
         "(parity bit included) and decoded by the real ECCDecoder; family 'disabled' checks enable=0 pass-through with "
-        "single/double flips. Data words: exhaustive for k<=6 (quick) / k<=10 (thorough), otherwise the linear basis "
+        "single/double flips; family 'history' builds and sweeps 2-4 codecs of different widths one after the other in one process.  Data words: exhaustive for k<=6 (quick) / k<=10 (thorough), otherwise the linear basis "
         "(zero, all-ones, unit vectors) plus seeded random words. Non-trivial = at least one double flip decoded; distinct = "
         "digest of (k, words, slice)")
 ASSUMPTIONS = [
@@ -64,11 +64,23 @@ def _slices(k, tier):
 def plan(tier):
     ks = QUICK_K if tier == "quick" else THOROUGH_K
     n = sum(len(_slices(k, tier)) for k in ks)
-    return [("sweep", n), ("disabled", len(ks))]
+    return [("sweep", n), ("disabled", len(ks)), ("history", 24 if tier == "quick" else 400)]
+
+
+HISTORY_K = [1, 2, 3, 4, 5, 7, 8, 11, 12, 13, 16, 20, 26, 27, 32]
 
 
 def generate_indexed(family, index, rng, tier):
     ks = QUICK_K if tier == "quick" else THOROUGH_K
+    if family == "history":
+        # several codecs of different widths built and used one after the other in the same process (as a SoC with several ECC
+        # memories does): nothing a codec computes may depend on which widths were elaborated before it
+        seq = []
+        for k in [rng.choice(HISTORY_K) for _ in range(rng.randint(2, 4))]:
+            m, n = m_n(k)
+            ws = [rng.getrandbits(k) | (1 << (k - 1)), rng.getrandbits(k)] if k <= 16 else [rng.getrandbits(k) | (1 << (k - 1))]
+            seq.append({"family": "sweep", "k": k, "words": ws, "slice": [0, n + 1], "exhaustive_words": False})
+        return {"family": "history", "seq": seq}
     if family == "disabled":
         k = ks[index % len(ks)]
         m, n = m_n(k)
@@ -125,6 +137,25 @@ def sim_comb(module, ins, outs, vectors):
 def run(scn):
     from dsim import boot
     from litex.soc.cores.ecc import ECCEncoder, ECCDecoder
+    if scn["family"] == "history":
+        out = None
+        for sub in scn["seq"]:
+            r = run(sub)
+            if out is None:
+                out = r
+            else:
+                out["violations"] += r["violations"]
+                for key in ("cycles", "checks"):
+                    out["stats"][key] += r["stats"][key]
+                for key in ("faults", "probes"):
+                    for a, b in r["stats"][key].items():
+                        out["stats"][key][a] = out["stats"][key].get(a, 0) + b
+        for v in out["violations"]:
+            v["msg"] = "widths built in this process, in order: %s; %s" % ([x["k"] for x in scn["seq"]], v["msg"])
+        out["violations"] = out["violations"][:3]
+        out["stats"]["probes"]["history_runs"] = 1
+        out["digest"] = hashlib.sha256(repr([(x["k"], x["words"]) for x in scn["seq"]]).encode()).hexdigest()[:16]
+        return out
     k = scn["k"]
     m, n = m_n(k)
     nb = n + 1
